@@ -3,12 +3,12 @@ namespace WR.C01
 
 /-! helper lemmas for Props/C01 -/
 
-theorem pickRootFixed_go_comments (i n : Nat) (rest : List Kind) (t : String) :
-    pickRootFixed.go i (List.replicate n Kind.comment ++ Kind.element t :: rest) = .node (i + n) (.element t) := by
+theorem pickRoot_go_comments (i n : Nat) (rest : List Kind) (t : String) :
+    pickRoot.go i (List.replicate n Kind.comment ++ Kind.element t :: rest) = .node (i + n) (.element t) := by
   induction n generalizing i with
-  | zero => simp [pickRootFixed.go]
+  | zero => simp [pickRoot.go]
   | succ n ih =>
-    simp only [List.replicate_succ, List.cons_append, pickRootFixed.go]
+    simp only [List.replicate_succ, List.cons_append, pickRoot.go]
     rw [ih]; congr 1; omega
 
 /-- non-blank state: the loop ends within `2·μ + 1` more pages -/
